@@ -1,7 +1,10 @@
 """C08 — the LR(1) generator builds a parser for exactly the grammar's language.
 
-Tie (translation validation + correspondence), per grammar G (random small CFGs, a hand
-corpus, and the two Emboss grammars):
+Tie (translation validation + correspondence), per grammar G (random small CFGs incl. directed
+families, a hand corpus, and the two Emboss grammars):
+  (o)   level B: the Lean model `gen G` of Grammar.parser() must produce exactly the real item
+        sets, state numbering, conflict flag and (conflict-free) ACTION/GOTO tables (`GEN`);
+        every conflict-free table passes the termination analysis (`LRTERM`, C08_terminates);
   (i)   real `lr1.Grammar(start, prods).parser()` either reports conflicts or its dumped
         tables + item sets pass the *proved* validator (`LRVALID`, Lean `Valid`), for which
         soundness / completeness / unambiguity / safety / error position are theorems;
@@ -113,6 +116,7 @@ class Case(object):
         self.parser = None
         self.oracle = None
         self.conflicts = False
+        self.looping = False
 
     def grammar_text(self):
         return "start %s; " % self.start + "; ".join(str(p) for p in self.prods)
@@ -130,6 +134,8 @@ def examine(chk, name, start, prods, tags, tier, stats):
     signal.setitimer(signal.ITIMER_REAL, 120)
     try:
         parser, g, exc = build_real(start, prods)
+        signal.setitimer(signal.ITIMER_REAL, 0)      # the alarm guards table generation; parses have their own
+        signal.signal(signal.SIGALRM, _alarm)
         if exc is not None:
             stats["crash"] += 1
             if too_many(chk):
@@ -215,7 +221,7 @@ def examine(chk, name, start, prods, tags, tier, stats):
         chk.nontrivial("free:" + gtext)
         return case
     except Alarm:
-        chk.violation("input", {"input": gtext, "observed": "no result within 120 s",
+        chk.violation("input", {"input": gtext, "observed": "Grammar(...).parser(): no result within 120 s",
                                 "expected": "termination"}, key="timeout:" + name)
         return None
     finally:
@@ -228,9 +234,16 @@ def judge(case, w, want, stats, sym, code):
     lr1 = lr1dump.lr1mod()
     parser, oracle = case.parser, case.oracle
     toks = lr1dump.make_tokens(w)
-    line, res, pexc = lr1dump.real_parse(parser, toks, sym, code)
+    if case.looping:
+        return "internal ParseTimeout"       # one non-terminating input per grammar is enough
+    line, res, pexc = lr1dump.real_parse(parser, toks, sym, code, limit=PARSE_LIMIT)
     stats["strings"] += 1
-    if pexc is not None:
+    if isinstance(pexc, lr1dump.ParseTimeout):
+        case.looping = True
+        stats["parse_timeouts"] = stats.get("parse_timeouts", 0) + 1
+        case.bad.append((w, "no result within %d s: Parser.parse does not terminate on this input" % PARSE_LIMIT,
+                         "timeout:parse"))
+    elif pexc is not None:
         case.bad.append((w, "exception %r" % pexc, "crash:lr1.py:Parser.parse:%s" % type(pexc).__name__))
     elif res.error is None:
         stats["accepted"] += 1
@@ -283,6 +296,7 @@ def deep_search(chk, case, tier, stats):
     return bool(case.bad)
 
 
+PARSE_LIMIT = 5       # seconds per real parse of a short token list (normally microseconds)
 MAX_REPLAYS = 12      # one defect shows on many grammars: further failures are only counted
 
 
@@ -500,7 +514,7 @@ def emboss_cases(chk, tier, stats, model_ok):
             # fresh identities; mutated streams carry no locations (shuffled locations would
             # trip SourceLocation's start <= end assertion, which real token lists never do)
             toks = [pt.Token(t.symbol, t.text, t.source_location if k < len(streams) else None) for t in toks]
-            line, res, pexc = lr1dump.real_parse(parser, toks, sym, code)
+            line, res, pexc = lr1dump.real_parse(parser, toks, sym, code, limit=60)
             w = tuple(t.symbol for t in toks)
             key = (len(case.real), w)
             case.real[key] = line
@@ -641,8 +655,9 @@ def run(tier):
         chk.sample({"grammar": c.grammar_text(), "strings": len(c.real)}, limit=4)
     chk.extra["distribution"] = stats
     chk.trusted += [
-        "compiled Lean validator run (validB = decide Valid) on each dumped table: that it returned true is "
-        "trusted to the Lean compiler/runtime",
+        "compiled Lean validator (validFast, proved to imply Valid), termination analysis (termOK = decide TermOK) "
+        "and generator model (gen) run on each dumped table / grammar: that they returned what the driver printed "
+        "is trusted to the Lean compiler/runtime",
         "harness/lib/lr1dump.py: transcription of lr1.Parser tables, item sets and results into the protocol",
         "harness/lib/cfg.py: Earley oracle (self-tested against brute-force enumeration)",
     ]
